@@ -344,6 +344,7 @@ def events (x : St) (l : RawLine) : Except String (St × List Ev) :=
     else if obj == "worker#1.curProcessing" then
       if op == "load" && fn == "worker.goEventLoop$1" then .ok (x, [.dCur g (natOf res)])
       else if op == "load" && fn == "worker.WaitUntilFinished$1" then .ok (x, [.wCur g (natOf res)])
+      else if op == "load" && fn == "worker.pause" then .ok (x, [.pCur g (natOf res)])
       else if op == "cas" && res == "true" then (if isDisp s g then .ok (x, [.dCasOk g]) else .error "reserve CAS by a goroutine that is not the event loop")
       else if op == "add" then (if isDisp s g then .ok (x, [.dRel g (natOf res)]) else .ok (x, [.relX g (natOf res)]))
       else .ok (x, [])
